@@ -19,6 +19,7 @@ import (
 	mrand "math/rand"
 	"net/netip"
 	"os"
+	"os/exec"
 	"path/filepath"
 	"runtime"
 	"sort"
@@ -71,6 +72,7 @@ type Natural struct {
 	Detail  string `json:"detail"`
 	Replies int    `json:"replies"`
 	Queued  int    `json:"queued"`
+	Window  string `json:"window,omitempty"` // the sliding under-load period: ok, skipped (why), or the violation
 }
 
 const baseNs = int64(1_000_000_000_000)
@@ -289,6 +291,11 @@ func (r *run) pickCookie(pl Plan) *gotCookie {
 // finish a handshake message body (bytes before MAC1) with the MAC variants of the plan
 func (r *run) withMacs(pl Plan, body []byte, sender *cosim.RefPeer) built {
 	var b built
+	if pl.TypeWord != 0 && len(body) >= 4 {
+		// an otherwise well-formed message with another type word: the MACs are computed over the bytes as sent
+		body = append([]byte{}, body...)
+		binary.LittleEndian.PutUint32(body[:4], pl.TypeWord)
+	}
 	orig := r.bodyID(body)
 	var m1 [16]byte
 	b.m1k, b.m1b = 1, orig
@@ -953,6 +960,52 @@ func genStranger(r *mrand.Rand) []Plan {
 	return p
 }
 
+// type words whose low byte names a type but whose reserved bytes 1..3 are not zero: unknown types.
+func reservedWord(r *mrand.Rand, t uint32) uint32 {
+	return t | []uint32{0x100, 0x10000, 0x01000000, 0x80000000, 0x00ff0000, 0xffffff00}[r.Intn(6)]
+}
+
+// otherwise perfectly well-formed messages of all four types (MAC1 valid over the bytes as sent, payload
+// authentic, transport sealed under the live session, cookie reply sealed properly) carrying such a type word,
+// in both load states and both roles: nothing may be sent, nothing may change
+func genReserved(r *mrand.Rand) []Plan {
+	pi := r.Intn(3)
+	var p []Plan
+	p = append(p, msg("init", pi, pi, "ok", "zero", "good"), msg("transport", pi, pi, "", "", "good"))
+	other := (pi + 1) % 3
+	p = append(p, Plan{Op: "tun", Peer: other}) // an initiation of the device is outstanding toward another peer
+	if r.Intn(2) == 0 {
+		p = append(p, Plan{Op: "load", On: true})
+	}
+	n := 4 + r.Intn(5)
+	for i := 0; i < n; i++ {
+		from := []int{pi, pi, r.Intn(len(addrTable))}[r.Intn(3)]
+		var q Plan
+		switch r.Intn(5) {
+		case 0:
+			q = msg("init", pi, from, "ok", []string{"zero", "cookie"}[r.Intn(2)], "good")
+			q.TypeWord = reservedWord(r, 1)
+			p = append(p, Plan{Op: "shifths", Peer: pi, D: 1})
+		case 1:
+			q = msg("resp", other, other, "ok", []string{"zero", "cookie"}[r.Intn(2)], "good")
+			q.TypeWord = reservedWord(r, 2)
+		case 2:
+			q = msg("cookie", other, other, "", "", "good")
+			q.TypeWord = reservedWord(r, 3)
+		case 3, 4:
+			q = msg("transport", pi, from, "", "", "good")
+			q.TypeWord = reservedWord(r, 4)
+		}
+		p = append(p, q)
+		if r.Intn(3) == 0 {
+			p = append(p, Plan{Op: "load", On: r.Intn(2) == 0})
+		}
+	}
+	// the genuine articles still work
+	p = append(p, Plan{Op: "load", On: false}, msg("resp", other, other, "ok", "zero", "good"), msg("transport", pi, pi, "", "", "good"))
+	return p
+}
+
 func genNoLoadAuthFail(r *mrand.Rand) []Plan {
 	var p []Plan
 	pi := r.Intn(3)
@@ -1154,6 +1207,24 @@ func fixedCases() []Case {
 			}
 		}
 		cs = append(cs, runCase(fmt.Sprintf("fixed-sizes-load=%v", load), p))
+		// well-formed messages of every type with non-zero reserved bytes
+		q := []Plan{msg("init", 0, 0, "ok", "zero", "good"), msg("transport", 0, 0, "", "", "good"), {Op: "tun", Peer: 1}}
+		if load {
+			q = append(q, Plan{Op: "load", On: true})
+		}
+		for _, hi := range []uint32{0x100, 0x10000, 0x01000000} {
+			a := msg("init", 0, 0, "ok", "zero", "good")
+			a.TypeWord = 1 | hi
+			b := msg("resp", 1, 1, "ok", "zero", "good")
+			b.TypeWord = 2 | hi
+			c := msg("cookie", 1, 1, "", "", "good")
+			c.TypeWord = 3 | hi
+			d := msg("transport", 0, 4, "", "", "good")
+			d.TypeWord = 4 | hi
+			q = append(q, Plan{Op: "shifths", Peer: 0, D: 1}, a, b, c, d)
+		}
+		q = append(q, Plan{Op: "load", On: false}, msg("resp", 1, 1, "ok", "zero", "good"), msg("transport", 0, 0, "", "", "good"))
+		cs = append(cs, runCase(fmt.Sprintf("fixed-reserved-bytes-load=%v", load), q))
 	}
 	return cs
 }
@@ -1342,7 +1413,90 @@ func natural() *Natural {
 	}
 	nat.Status = "ok"
 	nat.Detail = fmt.Sprintf("queue %d, %d cookie replies, %d responses%s", h, replies, responses, okRT)
+
+	// The under-load period lasts UnderLoadAfterTime (1 s) after the LAST time the queue was seen at least an
+	// eighth full.  First detection was before tS1.  A second burst 0.6 s later is seen over the threshold
+	// again (workers slowed to 3 ms per send), so the period must run until at least tBurst + 1 s: a valid
+	// initiation WITHOUT MAC2 at tS1 + 1.25 s (0.65 s after the burst) must draw a cookie reply, not a response.
+	tS1 := time.Now()
+	w.Bind.SendGate = func(bufs [][]byte, to netip.AddrPort) { time.Sleep(3 * time.Millisecond) }
+	var ds2 []sim.Dgram
+	for i := 0; i < 500; i++ {
+		p := peers[workers+i%4]
+		ds2 = append(ds2, sim.Dgram{From: netip.AddrPortFrom(p.Addr.Addr(), uint16(5000+i)), Data: mk(p).Msg})
+	}
+	// the burst must be over well before first detection + 1 s (else a deadline anchored to the FIRST detection
+	// would simply expire during the burst and be renewed), and the probe must come after that instant
+	time.Sleep(time.Until(tS1.Add(600 * time.Millisecond)))
+	tBurst := time.Now()
+	for i := 0; i < len(ds2); i += 125 {
+		w.Bind.Inject(ds2[i : i+125]...)
+	}
+	peak := 0
+	for time.Since(tBurst) < 60*time.Millisecond {
+		if _, _, hq := w.Dev.VerifQueueLens(); hq > peak {
+			peak = hq
+		}
+		time.Sleep(100 * time.Microsecond)
+	}
+	if !w.Settle() {
+		nat.Window = "skipped: second burst did not settle"
+		return nat
+	}
+	w.Bind.SendGate = nil
+	w.Bind.TakeSent()
+	if peak < 160 {
+		nat.Window = fmt.Sprintf("skipped: second burst reached only %d queued", peak)
+		return nat
+	}
+	time.Sleep(time.Until(tS1.Add(1250 * time.Millisecond)))
+	pp := peers[0]
+	probeFrom := netip.AddrPortFrom(pp.Addr.Addr(), 6001)
+	probe := mk(pp)
+	tProbe := time.Now()
+	out := w.Inject(probeFrom, probe.Msg)
+	tAfter := time.Now()
+	if tAfter.Sub(tBurst) > 950*time.Millisecond {
+		nat.Window = fmt.Sprintf("skipped: probe finished %v after the burst", tAfter.Sub(tBurst))
+		return nat
+	}
+	gotCookie, gotResp := false, false
+	for _, sd := range out.Sent {
+		if len(sd.Data) == ref.CookieSize && sd.Data[0] == ref.TypeCookie {
+			gotCookie = true
+		}
+		if len(sd.Data) == ref.ResponseSize && sd.Data[0] == ref.TypeResponse {
+			gotResp = true
+		}
+	}
+	if gotResp || !gotCookie {
+		nat.Status = "violation"
+		nat.Window = fmt.Sprintf("%v after the handshake queue was last seen over the threshold (peak %d) and %v after the load was first seen, an initiation WITHOUT MAC2 was answered with response=%v cookie=%v: the device must stay under load for %v after the LAST detection",
+			tProbe.Sub(tBurst).Round(time.Millisecond), peak, tProbe.Sub(tS1).Round(time.Millisecond), gotResp, gotCookie, time.Second)
+		nat.Detail = nat.Window
+		return nat
+	}
+	nat.Window = fmt.Sprintf("ok: cookie reply %v after the last burst (peak %d), %v after first detection", tProbe.Sub(tBurst).Round(time.Millisecond), peak, tProbe.Sub(tS1).Round(time.Millisecond))
 	return nat
+}
+
+// naturalAsync runs the natural-load scenario in a child process (its stalled workers would keep the quiescence
+// detector of the step-wise scenarios from ever seeing an idle process) and returns a function to collect it.
+func naturalAsync() func() *Natural {
+	cmd := exec.Command(os.Args[0], "-naturalonly")
+	var buf strings.Builder
+	cmd.Stdout = &buf
+	if err := cmd.Start(); err != nil {
+		return func() *Natural { return natural() }
+	}
+	return func() *Natural {
+		err := cmd.Wait()
+		var n Natural
+		if err != nil || json.Unmarshal([]byte(buf.String()), &n) != nil {
+			return &Natural{Status: "skipped", Detail: fmt.Sprintf("child process: %v %.200s", err, buf.String())}
+		}
+		return &n
+	}
 }
 
 // ---------------------------------------------------------------- output
@@ -1368,11 +1522,19 @@ func main() {
 	replayIn := flag.String("replay", "", "JSON file with cases (plans) to run")
 	corpus := flag.String("corpus", "", "directory of corpus JSON cases to run first")
 	noNat := flag.Bool("nonatural", false, "skip the natural-load scenario")
+	natOnly := flag.Bool("naturalonly", false, "run only the natural-load scenario and print its verdict as JSON")
 	flag.Parse()
+	if *natOnly {
+		data, _ := json.Marshal(natural())
+		os.Stdout.Write(data)
+		return
+	}
 	if err := os.MkdirAll(*out, 0o755); err != nil {
 		panic(err)
 	}
 	var cases []Case
+	var pendingNat func() *Natural
+	pendingNatIdx := -1
 	if *replayIn != "" {
 		data, err := os.ReadFile(*replayIn)
 		if err != nil {
@@ -1410,8 +1572,13 @@ func main() {
 				}
 			}
 		}
+		var collectNat func() *Natural
+		natIdx := -1
 		if !*noNat {
-			cases = append(cases, Case{Gen: "natural-load", Natural: natural(), Gallina: fmt.Sprintf("mk 1 %d [] []", baseNs)})
+			collectNat = naturalAsync()
+			natIdx = len(cases)
+			pendingNat, pendingNatIdx = collectNat, natIdx
+			cases = append(cases, Case{Gen: "natural-load", Gallina: fmt.Sprintf("mk 1 %d [] []", baseNs)})
 		}
 		cases = append(cases, fixedCases()...)
 		r := mrand.New(mrand.NewSource(*seed))
@@ -1419,7 +1586,7 @@ func main() {
 			name string
 			f    func(*mrand.Rand) []Plan
 			w    int
-		}{{"stranger", genStranger, 3}, {"noload-authfail", genNoLoadAuthFail, 2}, {"roundtrip", genRoundTrip, 5},
+		}{{"stranger", genStranger, 3}, {"reserved-bytes", genReserved, 3}, {"noload-authfail", genNoLoadAuthFail, 2}, {"roundtrip", genRoundTrip, 5},
 			{"load-response", genLoadResponse, 2}, {"device-gets-cookie", genDeviceGetsCookie, 3}, {"ratelimit", genRateLimit, 1}, {"mix", genMix, 4}}
 		tot := 0
 		for _, g := range gens {
@@ -1435,6 +1602,9 @@ func main() {
 				x -= g.w
 			}
 		}
+	}
+	if pendingNat != nil {
+		cases[pendingNatIdx].Natural = pendingNat()
 	}
 	if *shards > len(cases) {
 		*shards = len(cases)
